@@ -129,6 +129,44 @@ def _benign(ck, pid):
     print(f"[{pid}] benign refactorings: {summary}")
 
 
+def _metamorph(ck, pid):
+    """Thorough tier: the mechanical behaviour-preserving rewrites of tools/metamorph.py (layout, rename every local,
+    flip every if/else, else-after-return both ways, hoist every return value) are applied to scratch copies of the
+    whole package and this property's check must stay silent on each.  Recorded in evidence; never changes the
+    verdict."""
+    import importlib.util
+    import shutil
+    import subprocess
+    import tempfile
+    from concurrent.futures import ThreadPoolExecutor
+    here = os.path.dirname(os.path.dirname(os.path.abspath(__file__)))
+    spec = importlib.util.spec_from_file_location("metamorph", os.path.join(here, "tools", "metamorph.py"))
+    mm = importlib.util.module_from_spec(spec)
+    spec.loader.exec_module(mm)
+    mm.REPO = os.environ.get("PINT_REPO", "/repo")
+
+    def one(tid):
+        tmp = tempfile.mkdtemp(prefix=f"meta-{tid}-")
+        try:
+            n = mm.build_variant(tid, tmp)
+            env = dict(os.environ, PINT_REPO=tmp, VERIF_EVIDENCE_DIR=os.path.join(tmp, "ev"))
+            rr = subprocess.run([os.path.join(here, "check"), pid], capture_output=True, text=True, env=env)
+            reports = [l.strip()[:200] for l in rr.stdout.splitlines() if l.startswith("  pint") or "ANALYSIS-ERROR" in l]
+            return {"transformation": f"{tid} {mm.TRANSFORMS[tid][0]}", "rewrites": n, "status": {0: "silent", 1: "FALSE-ALARM", 2: "inapplicable"}.get(rr.returncode, "error"), "reports": reports[:5]}
+        except Exception as e:
+            return {"transformation": tid, "status": "error", "why": str(e)}
+        finally:
+            shutil.rmtree(tmp, ignore_errors=True)
+    with ThreadPoolExecutor(max_workers=6) as ex:
+        out = list(ex.map(one, list(mm.TRANSFORMS)))
+    summary = {}
+    for x in out:
+        summary[x["status"]] = summary.get(x["status"], 0) + 1
+    ck.extra["mechanical_rewrites"] = {"summary": summary, "variants": out,
+                                       "explanation": "whole-package behaviour-preserving rewrites (tools/metamorph.py); the check must not alarm on any of them"}
+    print(f"[{pid}] mechanical rewrites: {summary}")
+
+
 def main(argv):
     if not argv:
         print("usage: check <ID> [--tier quick|thorough] [--replay path]")
@@ -169,6 +207,7 @@ def main(argv):
         _selftest(ck, pid)
         _seeded(ck, pid)
         _benign(ck, pid)
+        _metamorph(ck, pid)
     code = ck.finish(explanation)
     if replay:
         try:
